@@ -32,6 +32,8 @@ class Unit:
     dfcc: bool = True
     reach: bool = True              # vacuity guard: end of harness must be reachable
     reach_timeout: int = 120
+    reach_unwind: int = 0            # >0: vacuity guard on the binary WITHOUT loop contracts, loops unwound this far under the witness (for units whose
+                                     # contract-mode witness search times out; sound because base+step of every invariant are proved, so the real exit state satisfies it)
     reach_backend: str = ''         # '' = same family as backend; 'sat' | 'smt'
     harness_pre: str = ''            # ghost assignments before the call in the generated harness (e.g. g_N = numNodes;)
     small: str = ''                 # small-domain restriction for the extra SAT refuter (never used to prove)
